@@ -5,6 +5,7 @@ CONSTANTS
   AppendMode = TRUE
   Shapes <- Shapes6
   PerThread = 2
+  MaxFail = 1
 SPECIFICATION MCSpec
-INVARIANTS Durable NotInterleaved ThreadOrder PrefixKept TruncatedAtOpen WholeExceptHolder NoDupNoLoss
+INVARIANTS Durable NotInterleaved ThreadOrder PrefixKept TruncatedAtOpen WholeExceptHolder NoDupNoLoss FailedNotAcked
 CHECK_DEADLOCK FALSE
